@@ -20,6 +20,9 @@ import GaeaVerif.Model.ResultStream
                                    ExecuteSQLs → executeMultipleSQLInSlice (deadline
                                    around all statements of a slice), recycle*,
                                    transaction / keep-session pinning
+    proxy/server/executor_handle.go  doMultiStmts (a COM_QUERY text of several
+                                   statements: every statement answered on its own,
+                                   the flag on all answers but the last - repaired)
     proxy/plan/plan_select.go      SelectPlan.ExecuteIn + MergeSelectResult for a
                                    SELECT without aggregation, ORDER BY, LIMIT: the
                                    rows of the sub-tables one after the other
@@ -345,6 +348,10 @@ inductive Stmt where
   | un (answer : List Res) (b : Option Nat)
   /-- sharded statement: the answers to the statements of slice-0 and of slice-1 (in table order) -/
   | sq (t0 t1 : List TRes) (b : Option Nat)
+  /-- one COM_QUERY text of several unsharded statements, split by the proxy
+      (`support_multi_query` and CLIENT_MULTI_STATEMENTS: `doMultiStmts`): the
+      answer of slice-0's backend to each statement (one result per statement) -/
+  | mq (pieces : List Res) (b : Option Nat)
   deriving Repr, BEq, DecidableEq
 
 /-- Is the connection of a slice fit for a command (new, or nothing unread)? -/
@@ -398,6 +405,48 @@ def sqStep (ss : Sess) (r0 r1 : Option (SliceOut × ConnAfter)) (b : Option Nat)
     let alive := !(cl.2 == .closed || cl.2 == .hang || (ss.tx && (a0.2 || a1.2)))
     ({ ss with s0 := a0.1, s1 := a1.1, alive := alive }, some ⟨cl.1, cl.2, alive⟩)
 
+/-- `doMultiStmts` answers every statement but the last with
+    SERVER_MORE_RESULTS_EXISTS in the status (a streamed result keeps it: repaired). -/
+def flagMore : List RView → List RView
+  | [] => []
+  | .okp _ :: vs => .okp true :: flagMore vs
+  | .rs rows (some _) :: vs => .rs rows (some true) :: flagMore vs
+  | .rs rows none :: vs => .rs rows none :: flagMore vs
+
+/-- Packets written for results that were sent in full. -/
+def viewsPackets : List RView → Nat
+  | [] => 0
+  | .okp _ :: vs => 1 + viewsPackets vs
+  | .rs rows _ :: vs => headerPackets + rows.length + 1 + viewsPackets vs
+
+structure MqOut where
+  sl : Sl
+  views : List RView
+  fin : SFin
+  /-- a pinned connection was closed -/
+  lost : Bool
+  desync : Bool
+  deriving Repr, BEq, DecidableEq
+
+/-- `doMultiStmts`: the statements one after the other, each like a statement
+    of its own (`doQuery`; its connection is taken and given back per statement);
+    the answer to every statement but the last is written at once, with the
+    more-results flag; a statement that fails - at once, or in the middle of its
+    streamed result (repaired) - ends the answer to the packet. -/
+def mqLoop (T : Nat) (m : Int) (armed pin : Bool) : List Res → Sl → Option Nat → List RView → MqOut
+  | [], s0, _, acc => ⟨s0, acc, .done, false, false⟩
+  | r :: rest, s0, b, acc =>
+    if !s0.fit then ⟨s0, acc, .closed, false, true⟩
+    else
+      let o := unStmt T m armed [r] b
+      let a := s0.after pin o.conn
+      match rest with
+      | [] => ⟨a.1, acc ++ o.views, o.fin, a.2, false⟩
+      | _ :: _ =>
+        if o.fin = .done then
+          mqLoop T m armed pin rest a.1 (spend b (viewsPackets o.views)) (acc ++ flagMore o.views)
+        else ⟨a.1, acc ++ flagMore o.views, o.fin, a.2, false⟩
+
 def step (T : Nat) (m : Int) (armed : Bool) (ss : Sess) (st : Stmt) : Sess × Option Answer :=
   if !ss.alive || ss.desync then (ss, none)
   else
@@ -420,6 +469,12 @@ def step (T : Nat) (m : Int) (armed : Bool) (ss : Sess) (st : Stmt) : Sess × Op
         -- when the open transaction lost its connection (txConnLost)
         let alive := !(o.fin == .closed || o.fin == .hang || (ss.tx && lost))
         ({ ss with s0 := s0', alive := alive }, some ⟨o.views, o.fin, alive⟩)
+    | .mq pieces b =>
+      let o := mqLoop T m armed (ss.tx || ss.ks) pieces ss.s0 b []
+      if o.desync then ({ ss with desync := true }, none)
+      else
+        let alive := !(o.fin == .closed || o.fin == .hang || (ss.tx && o.lost))
+        ({ ss with s0 := o.sl, alive := alive }, some ⟨o.views, o.fin, alive⟩)
     | .sq t0 t1 b =>
       if (!t0.isEmpty && !ss.s0.fit) || (!t1.isEmpty && !ss.s1.fit) then ({ ss with desync := true }, none)
       else
